@@ -64,15 +64,15 @@ func fatal(format string, a ...any) {
 }
 
 type rewriter struct {
-	fset    *token.FileSet
-	info    *types.Info
-	pkgPath string
-	file    *ast.File
-	changed bool
-	needVS  bool
-	fname   string
-	tmp     int
-	handled map[ast.Node]bool
+	fset          *token.FileSet
+	info          *types.Info
+	pkgPath       string
+	file          *ast.File
+	changed       bool
+	needVS        bool
+	fname         string
+	tmp           int
+	handled       map[ast.Node]bool
 	pkg           *types.Package
 	sharedLoopVar bool // module declares go < 1.22: one loop variable per loop, not per iteration
 }
@@ -140,7 +140,8 @@ func main() {
 			overlay[fname] = dst
 		}
 		// R7: added export file
-		if src, ok := exportFiles[p.PkgPath]; ok && len(p.GoFiles) > 0 {
+		if p.PkgPath == "github.com/jirenius/go-res" && len(p.GoFiles) > 0 {
+			src := exportFile(p.Types)
 			pdir := filepath.Dir(p.GoFiles[0])
 			dst := filepath.Join(odir, p.PkgPath, "export_verif.go")
 			os.MkdirAll(filepath.Dir(dst), 0o755)
@@ -156,18 +157,51 @@ func main() {
 	fmt.Printf("vrewrite: %d files in overlay\n", len(overlay))
 }
 
-var exportFiles = map[string]string{
-	"github.com/jirenius/go-res": `//go:build verif
-
-package res
-
-// Read-only re-exports for the verification harness (no behaviour change).
-
-func VerifIsValidPart(p string) bool         { return isValidPart(p) }
-func VerifIsValidPath(p string) bool         { return isValidPath(p) }
-func VerifMergePattern(a, b string) string   { return mergePattern(a, b) }
-func VerifHandleReconnect(s *Service)        { s.handleReconnect(nil) }
-`,
+// exportFile generates the read-only re-exports the harness uses. An unexported helper that no longer exists
+// (renamed or removed by a change to go-res) becomes a stub listed in VerifMissing, so that the harness
+// skips the sub-checks built on it instead of failing to compile.
+func exportFile(pkg *types.Package) string {
+	has := func(name string) bool {
+		if pkg == nil {
+			return false
+		}
+		o := pkg.Scope().Lookup(name)
+		_, ok := o.(*types.Func)
+		return ok
+	}
+	hasMethod := func(typ, name string) bool {
+		if pkg == nil {
+			return false
+		}
+		o := pkg.Scope().Lookup(typ)
+		if o == nil {
+			return false
+		}
+		m, _, _ := types.LookupFieldOrMethod(types.NewPointer(o.Type()), true, pkg, name)
+		_, ok := m.(*types.Func)
+		return ok
+	}
+	var b strings.Builder
+	var missing []string
+	b.WriteString("//go:build verif\n\npackage res\n\n// Read-only re-exports for the verification harness (no behaviour change).\n\n")
+	gen := func(ok bool, name, real, stub string) {
+		if ok {
+			b.WriteString(real + "\n")
+		} else {
+			b.WriteString(stub + "\n")
+			missing = append(missing, name)
+		}
+	}
+	gen(has("isValidPart"), "isValidPart", "func VerifIsValidPart(p string) bool { return isValidPart(p) }", "func VerifIsValidPart(p string) bool { return false }")
+	gen(has("isValidPath"), "isValidPath", "func VerifIsValidPath(p string) bool { return isValidPath(p) }", "func VerifIsValidPath(p string) bool { return false }")
+	gen(has("mergePattern"), "mergePattern", "func VerifMergePattern(a, b string) string { return mergePattern(a, b) }", "func VerifMergePattern(a, b string) string { return \"\" }")
+	gen(hasMethod("Service", "handleReconnect"), "handleReconnect", "func VerifHandleReconnect(s *Service) { s.handleReconnect(nil) }", "func VerifHandleReconnect(s *Service) {}")
+	b.WriteString("\n// VerifMissing lists the helpers above that this tree does not have.\nvar VerifMissing = map[string]bool{")
+	for _, m := range missing {
+		fmt.Fprintf(&b, "%q: true, ", m)
+	}
+	b.WriteString("}\n")
+	return b.String()
 }
 
 func (rw *rewriter) pos(n ast.Node) string {
